@@ -89,6 +89,7 @@ Definition dw_contains (d : dw) (t : trait) : bool :=
 
 Definition is_custom (g : generic) : bool := match g with GCustom _ => true | GNoBound _ => false end.
 Definition any_custom_bound (d : dw) : bool := existsb is_custom (dw_generics d).
+Definition all_custom_bound (d : dw) : bool := forallb is_custom (dw_generics d).
 
 (* `T` alone: a type that is a path consisting of one identifier *)
 Definition is_ident_tok (t : tok) : bool :=
